@@ -30,3 +30,14 @@ package fixedpoint
 //@   let hi = big(maxInt) * F + big(maxFractional)
 //@   nofail
 //@   ensures[C40] iff(result, !(negative && big(minInt) == 0) && lo <= v && v <= hi)
+
+// ---- C17: the range rule of the fixed-point fromString parsers (the split of the string into its parts,
+// parseFixedPoint, is string processing and not covered)
+//@ func checkAndConvertFixedPoint
+//@   inline
+//@ func ConvertToFixedPointBigInt
+//@   inline
+//@ schema fixparse(N=Fix64, S=8, SGN=ite(negative, -1, 1), NEG=negative, UNSIGNED=false, MIN=-pow2(63), MAX=pow2(63)-1)
+//@ schema fixparse(N=Fix128, S=24, SGN=ite(negative, -1, 1), NEG=negative, UNSIGNED=false, MIN=-pow2(127), MAX=pow2(127)-1)
+//@ schema fixparse(N=UFix64, S=8, SGN=1, NEG=false, UNSIGNED=true, MIN=0, MAX=pow2(64)-1)
+//@ schema fixparse(N=UFix128, S=24, SGN=1, NEG=false, UNSIGNED=true, MIN=0, MAX=pow2(128)-1)
